@@ -17,6 +17,7 @@ import FwdVerif.Lemmas.C08Family
 import FwdVerif.Lemmas.C08Checker
 import FwdVerif.Lemmas.C08Timed
 import FwdVerif.Lemmas.C08Stable
+import FwdVerif.Lemmas.C08Stack
 
 namespace FwdVerif
 namespace C08
@@ -524,6 +525,125 @@ set_option maxRecDepth 100000 in
 /-- four callers, the first at 7: the deadline is 107 for all of them -/
 example : TConn.outcome { timeout := 100 } [7, 50, 90, 300] [⟨120, [1]⟩] = some ⟨.timedOut, 107⟩ := by
   decide
+
+/-! ### (h) listener stacking: the header read is not subject to the bandwidth limiter
+
+  `productStack c` (Model/C08Stack.lean) is the stack `forwarder.Listener.Listen`/`Accept` build for
+  the configuration `c`: socket, PROXY layer, limiter (if a read or write limit is set), tracker, TLS.
+  `stackRead s rx timeout start sched` is the header read of a connection accepted from a listener
+  stacked as `s` whose rx token bucket is in state `rx` (any state: full, empty, in debt for hours
+  because of what other connections of the listener have moved).  The statements hold for every
+  configuration with the PROXY protocol on: with and without TLS, read limit, write limit, traffic
+  tracking. -/
+
+/-- In the product's order the PROXY layer wraps the socket itself: no limiter, tracker or TLS layer
+    stands between the socket and the header read. -/
+theorem c08_product_proxy_wraps_socket (c : StackCfg) (hp : c.proxy = true) :
+    belowProxy (productStack c) = [] :=
+  belowProxy_product c hp
+
+/-- The limiter contributes nothing to the header read, whatever its debt; the header's bytes reach
+    `proxyproto.Conn` when they reach the socket. -/
+theorem c08_header_not_rate_limited (c : StackCfg) (hp : c.proxy = true) :
+    (∀ debt, headerReadDelay (productStack c) debt = 0) ∧
+    (∀ rx start sched, headerSched (productStack c) rx start sched = sched) := by
+  have hb := belowProxy_product c hp
+  constructor
+  · intro debt; unfold headerReadDelay; rw [hb]; simp
+  · intro rx start sched; unfold headerSched; rw [hb]; cases rx <;> simp
+
+/-- So the timed header read of the stacked connection is the timed read on the raw arrivals: every
+    statement of section (g) holds for it as it stands, in every state of the limiter. -/
+theorem c08_stack_product_reads_raw (c : StackCfg) (hp : c.proxy = true) (rx : Option Limiter)
+    (timeout start : Nat) (sched : List Arr) :
+    stackRead (productStack c) rx timeout start sched = readTimed .total timeout start none sched := by
+  unfold stackRead; rw [(c08_header_not_rate_limited c hp).2]
+
+/-- A well-formed header that reaches the socket in one piece by the deadline (with its payload, and
+    whatever follows) is accepted when it arrives, with the payload as the unread rest - however deep
+    in debt the listener's limiter is. -/
+theorem c08_stack_wellformed_accepted_despite_debt (c : StackCfg) (hp : c.proxy = true) (rx : Option Limiter)
+    (timeout start t : Nat) (bs rest : Bytes) (h : Header) (more : List Arr)
+    (hr : readHeader bs = .ok (h, rest)) (ht : t ≤ start + timeout) :
+    stackRead (productStack c) rx timeout start (⟨t, bs⟩ :: more) = ⟨.accepted h rest, max start t⟩ := by
+  rw [c08_stack_product_reads_raw c hp]
+  have hctx : start ≤ deadlineAt timeout start none := by show start ≤ start + timeout; omega
+  have key := (c08_timed_never_cut_early timeout start none (⟨t, bs⟩ :: more) hctx).2
+    [⟨t, bs⟩] more (.accepted h rest) rfl
+    (by intro k hk
+        have : k = 0 := by simpa using hk
+        subst this; exact verdict_nil)
+    (by simpa [bytesOf] using verdict_of_ok hr)
+    (by intro a ha
+        have : a = ⟨t, bs⟩ := by simpa using ha
+        subst this; exact ht)
+  simpa [lastTime] using key
+
+/-- The header timeout is still enforced on the stacked connection: a peer that stalls inside the
+    header is cut off at `start + timeout`, whatever the limiter's state. -/
+theorem c08_stack_timeout_enforced (c : StackCfg) (hp : c.proxy = true) (rx : Option Limiter)
+    (timeout start : Nat) (sched : List Arr)
+    (hwait : ∀ k, k ≤ sched.length → verdict (bytesOf (sched.take k)) = none) :
+    stackRead (productStack c) rx timeout start sched = ⟨.timedOut, start + timeout⟩ := by
+  rw [c08_stack_product_reads_raw c hp]
+  exact c08_timed_silent_peer_cut_at_deadline timeout start none sched (by show start ≤ start + timeout; omega) hwait
+
+/-- The order matters.  In ANY stacking with the limiter below the PROXY layer, a listener whose rx
+    bucket is in debt for longer than the header timeout refuses every connection: the header's first
+    bytes, even if they are in the socket before the read starts, are handed on only when the bucket
+    has paid for them, which is after the deadline. -/
+theorem c08_stack_limiter_below_refuses (s : List Layer) (hs : Layer.ratelimit ∈ belowProxy s) (l : Limiter)
+    (timeout start : Nat) (a : Arr) (as : List Arr)
+    (hdebt : timeout < l.debtAt start) (hdata : a.data ≠ []) :
+    stackRead s (some l) timeout start (a :: as) = ⟨.timedOut, start + timeout⟩ := by
+  have hn : a.data.length ≠ 0 := by
+    intro h0; exact hdata (List.eq_nil_of_length_eq_zero h0)
+  have hz := take_zeroAt_le_snd l (max start a.time) a.data.length hn
+  unfold Limiter.debtAt at hdebt
+  have hsched : headerSched s (some l) start (a :: as) = throttle l start (a :: as) := by
+    show (if Layer.ratelimit ∈ belowProxy s then throttle l start (a :: as) else a :: as) = _
+    rw [if_pos hs]
+  unfold stackRead
+  rw [hsched]
+  unfold readTimed
+  have hd : deadlineAt timeout start none = start + timeout := rfl
+  rw [hd, if_neg (by omega)]
+  show timedLoop .total timeout (⟨(l.take (max start a.time) a.data.length).2, a.data⟩ :: _) start (start + timeout) [] = _
+  rw [timedLoop_cons, verdict_nil]
+  show (if max start (l.take (max start a.time) a.data.length).2 ≤ start + timeout then _ else _) = _
+  rw [if_neg (by omega)]
+
+/-- …and the limiter-first order is such a stacking whenever a limit is configured. -/
+theorem c08_stack_limiter_first_is_below (c : StackCfg) (hl : c.limited = true) (debt : Nat) :
+    Layer.ratelimit ∈ belowProxy (limiterFirstStack c) ∧ headerReadDelay (limiterFirstStack c) debt = debt := by
+  have h := belowProxy_limiterFirst c hl
+  exact ⟨h, by unfold headerReadDelay; rw [if_pos h]⟩
+
+/-- The limiter only delays: what a reader above it is handed is the same data in the same pieces,
+    none of it earlier than it reached the socket - throttled, never lost. -/
+theorem c08_limiter_delays_never_drops (l : Limiter) (now : Nat) (sched : List Arr) :
+    Later sched (throttle l now sched) ∧ bytesOf (throttle l now sched) = bytesOf sched :=
+  ⟨throttle_later sched l now, throttle_bytes sched l now⟩
+
+/-- a listener with PROXY protocol, TLS, a write limit of 1 byte per time unit (burst 4 MiB) and
+    traffic tracking -/
+def stackEx : StackCfg := { proxy := true, writeLimit := 1, trackTraffic := true, tls := true }
+
+example : productStack stackEx = [.proxyproto, .ratelimit, .track, .tls] ∧
+    limiterFirstStack stackEx = [.ratelimit, .proxyproto, .track, .tls] := by decide
+
+set_option maxRecDepth 100000 in
+/-- Witness: the bucket 1000 units in debt, header timeout 100, `PROXY TCP6 :: :: 1 2\r\nhello` in the
+    socket at time 0.  The product's stack accepts it at time 0 with `hello` as payload; with the
+    limiter first the same connection is refused at the deadline. -/
+theorem c08_stack_swapped_witness :
+    stackRead (productStack stackEx) (some ⟨1, 4194304, 1000⟩) 100 0 [⟨0, f5Line.bytes ++ [104, 101, 108, 108, 111]⟩] =
+      ⟨.accepted (v1Hdr (List.replicate 16 0) (List.replicate 16 0) 1 2) [104, 101, 108, 108, 111], 0⟩ ∧
+    stackRead (limiterFirstStack stackEx) (some ⟨1, 4194304, 1000⟩) 100 0 [⟨0, f5Line.bytes ++ [104, 101, 108, 108, 111]⟩] =
+      ⟨.timedOut, 100⟩ ∧
+    stackRead (limiterFirstStack stackEx) (some ⟨1, 4194304, 0⟩) 100 0 [⟨0, f5Line.bytes ++ [104, 101, 108, 108, 111]⟩] =
+      ⟨.accepted (v1Hdr (List.replicate 16 0) (List.replicate 16 0) 1 2) [104, 101, 108, 108, 111], 27⟩ := by
+  refine ⟨?_, ?_, ?_⟩ <;> decide
 
 end C08
 end FwdVerif
